@@ -350,15 +350,18 @@ Fixpoint toks_ok (hs : list hdr) (toks : list str) : bool :=
   | h :: hs', v :: toks' => tok_ok h v && toks_ok hs' toks'
   | _, _ => true
   end.
-(* the four coordinates are integers *)
+(* the four coordinates are integers, or one of them is missing (then attrs[c[...]] is a KeyError whatever the others are,
+   core.py:309-312; round 7: such rows are inside the domain) *)
 Definition coords_int (d : dialect) (a : attrs_t) : bool :=
   match cattr d a (bs "sstart"%bs), cattr d a (bs "send"%bs), cattr d a (bs "qstart"%bs), cattr d a (bs "qend"%bs) with
   | Some (AInt _), Some (AInt _), Some (AInt _), Some (AInt _) => true
-  | _, _, _, _ => false
+  | Some _, Some _, Some _, Some _ => false
+  | _, _, _, _ => true
   end.
+(* a row whose number of tokens is not the number of columns is inside the domain: the ValueError of core.py:298-300 is
+   raised before any token is converted (round 7) *)
 Definition row_wf (d : dialect) (hs : list hdr) (toks : list str) : bool :=
-  Nat.eqb (length toks) (length hs) && toks_ok hs toks &&
-  coords_int d (row_attrs hs toks).
+  if Nat.eqb (length toks) (length hs) then toks_ok hs toks && coords_int d (row_attrs hs toks) else true.
 
 (* one line; returns the domain flag of this line and the new state *)
 Definition step (d : dialect) (sep : option byte) (outfmt_none : bool) (ftype : option str)
